@@ -177,6 +177,42 @@ def fault_enumeration(ctx):
 
 HOST_SRC = '''
 import threading
+import random
+class Session(dict):
+    """a mapping that notices being read (as web sessions do)"""
+    accessed = False
+    def __getitem__(self, k):
+        self.accessed = True
+        return dict.__getitem__(self, k)
+    def __iter__(self):
+        self.accessed = True
+        return dict.__iter__(self)
+    def __len__(self):
+        self.accessed = True
+        return dict.__len__(self)
+    def keys(self):
+        self.accessed = True
+        return dict.keys(self)
+
+class Walked(list):
+    walks = 0
+    def __iter__(self):
+        self.walks += 1
+        return list.__iter__(self)
+    def __len__(self):
+        self.walks += 1
+        return list.__len__(self)
+
+def handle(session, walked):
+    user = "u-7"                                # the session and the list are only passed through, never read
+    reply = user.upper()
+    return reply
+
+def draws():
+    random.seed(7)                              # a seeded host: the numbers it draws are part of its result
+    a = random.random()
+    b = random.randint(1, 100)
+    return (a, b, random.random())
 class Weird:
     def __init__(self, n):
         self.n = n
@@ -253,6 +289,10 @@ def main():
     out.append(sum(gen(5)))
     out.append((priced([1, 2, 3]), rate))
     out.append([Shape(i).area() for i in range(3)])
+    sess, walked = Session(k=1), Walked([1, 2, 3])
+    out.append(handle(sess, walked))
+    out.append((sess.accessed, walked.walks))
+    out.append(draws())
     out.append(counter())
     out.append([Shape(i).area() for i in range(2)])
     ts = [threading.Thread(target=worker, args=(out, k)) for k in range(4)]
@@ -344,8 +384,9 @@ def differential(ctx, n):
             tdesc.append(dict(line=line, args=args, watches=watches, metrics=len(metrics)))
         if rng.random() < 0.6:
             # plain snapshot tracepoints (no watches / log / condition) inside the methods that use cells
-            hot = [i + 1 for i, t in enumerate(lines) if "extra" in t or "count += k" in t or "return count" in t or "self.s = s" in t]
-            for hl in rng.sample(hot, rng.choice([1, 2])):
+            hot = [i + 1 for i, t in enumerate(lines) if "extra" in t or "count += k" in t or "return count" in t or "self.s = s" in t
+                   or "reply = user.upper()" in t or "return reply" in t or "b = random.randint" in t or "a = random.random()" in t]
+            for hl in rng.sample(hot, rng.choice([1, 2, 3])):
                 trigs.append(build_trigger("tph%d" % hl, base, hl, {"fire_count": rng.choice(["-1", "1"]), "fire_period": "0"}, [], []))
                 tdesc.append(dict(line=hl, args="plain snapshot", watches=[], metrics=0))
         world.install(trigs)
